@@ -649,6 +649,10 @@ pub fn record<S: System>(
             "wall_s": out.wall_s,
         }),
     );
+    chk.set(
+        "trace_validation",
+        serde_json::json!("there is no separate model to conform: every transition of the search copies the REAL object and calls the REAL method (feed / poll / reset); the oracle (reference model or history observer) runs beside it. traces_validated_against_impl counts BFS-tree paths that were additionally re-executed from scratch on a fresh real object (clock 0): the result of every step and the final identity must equal what the search stored"),
+    );
     if let Some(c) = &out.cap {
         chk.not_exhaustive(&format!("{}: {}", sys.name(), c));
     }
